@@ -13,7 +13,7 @@ var ErrInjected = errors.New("iox: injected fault")
 // Step is one element of a delivery schedule (spec/Scanner.tla): deliver up to N bytes, then report K.
 type Step struct {
 	N int    `json:"n"`
-	K string `json:"k"` // ok | eof | fail
+	K string `json:"k"` // ok | eof | fail | fail:ueof (the stream's own error is io.ErrUnexpectedEOF, as a decompressor reports a cut stream)
 }
 
 // Scripted delivers doc according to sched. A step holding more bytes than the caller's buffer is
@@ -24,6 +24,7 @@ type Scripted struct {
 	sched  []Step
 	Reads  int
 	failed bool // a failed stream keeps failing
+	err    error
 }
 
 func NewScripted(doc []byte, sched []Step) *Scripted {
@@ -33,7 +34,7 @@ func NewScripted(doc []byte, sched []Step) *Scripted {
 func (s *Scripted) Read(p []byte) (int, error) {
 	s.Reads++
 	if s.failed {
-		return 0, ErrInjected
+		return 0, s.err
 	}
 	if len(s.sched) == 0 {
 		if len(s.doc) == 0 {
@@ -63,8 +64,11 @@ func (s *Scripted) Read(p []byte) (int, error) {
 	case "eof":
 		return n, io.EOF
 	case "fail":
-		s.failed = true
+		s.failed, s.err = true, ErrInjected
 		return n, ErrInjected
+	case "fail:ueof":
+		s.failed, s.err = true, io.ErrUnexpectedEOF
+		return n, io.ErrUnexpectedEOF
 	}
 	return n, nil
 }
@@ -99,6 +103,14 @@ func FailAt(k int) []Step {
 		return []Step{{0, "fail"}}
 	}
 	return []Step{{k, "ok"}, {0, "fail"}}
+}
+
+// FailAtWith is FailAt with the given failing kind.
+func FailAtWith(k int, kind string) []Step {
+	if k == 0 {
+		return []Step{{0, kind}}
+	}
+	return []Step{{k, "ok"}, {0, kind}}
 }
 
 // FailingWriter accepts Limit bytes in total and then fails with a short count.
